@@ -1,6 +1,6 @@
 (* C07 -- Inline markup renders to the intended structure (partial: see MANIFEST level text). *)
 From Rimu Require Import Base Unicode Regex RegexAnalysis RegexParse Str Types Tables Guards State Inline Block
-  Frame FrameBlock FrameInst OptionsLemmas MiscLemmas MoreLemmas Plain TableFacts PlainDoc Lines MatchExact Emphasis ParaDoc ListDoc.
+  Frame FrameBlock FrameInst OptionsLemmas MiscLemmas MoreLemmas Plain TableFacts PlainDoc Lines MatchExact Emphasis ParaDoc EmDoc.
 
 (* All other characters come through unchanged except that <, > and & are escaped: inline text over the
    plain alphabet (letters, digits, blanks, newline and the punctuation that is part of no markup; decided for
